@@ -4,6 +4,7 @@
 mod checks;
 mod common;
 mod findings;
+mod ksim;
 mod lsim;
 mod mon;
 mod prng;
